@@ -17,7 +17,11 @@ From Raven Require Import Base.GoStr.
 Import ListNotations.
 Local Open Scope Z_scope.
 
-(** calendar date (year, month 1..12, day): what [t.Year(), t.Month(), t.Day()] give *)
+(** calendar date (year, month 1..12, day): what [t.Year(), t.Month(), t.Day()] give,
+    i.e. the date IN THE ZONE THE time.Time CARRIES (for a parsed Date: field the date as
+    written, whatever the offset and the time of day) — never the UTC day of the instant.
+    matchesDate rebuilds both dates at 00:00 UTC from these triples, so the comparison
+    is the comparison of the triples. *)
 Definition date := (Z * Z * Z)%type.
 
 (** message.messageInfo, plus the text parser.ReconstructMessage... returns for it *)
